@@ -4,8 +4,66 @@
 //! harness installs a callback or an override.
 #![allow(missing_docs)]
 
+use std::{
+    io,
+    sync::{Arc, RwLock},
+};
+
 /// The private `$ENV{NAME}` scanner used by the file appenders and the fixed-window roller.
 #[cfg(any(feature = "file_appender", feature = "rolling_file_appender"))]
 pub fn expand_env_vars(path: &str) -> String {
     crate::append::verif_expand_env_vars(path)
 }
+
+type NowFn = Arc<dyn Fn() -> Option<(i64, u32)> + Send + Sync>;
+type RotateFn = Arc<dyn Fn(u32) -> io::Result<()> + Send + Sync>;
+type PointFn = Arc<dyn Fn(&str) + Send + Sync>;
+
+static NOW: RwLock<Option<NowFn>> = RwLock::new(None);
+static ROTATE: RwLock<Option<RotateFn>> = RwLock::new(None);
+static POINT: RwLock<Option<PointFn>> = RwLock::new(None);
+
+/// Install (or remove) a clock override: the callback returns `(unix seconds, nanoseconds)`.
+pub fn set_now(f: Option<NowFn>) {
+    *NOW.write().unwrap() = f;
+}
+
+/// The overridden current time, if a clock override is installed.
+#[cfg(feature = "time_trigger")]
+pub fn now_override() -> Option<chrono::DateTime<chrono::Local>> {
+    use chrono::TimeZone;
+    let f = NOW.read().unwrap().clone()?;
+    let (secs, nanos) = f()?;
+    chrono::Local.timestamp_opt(secs, nanos).single()
+}
+
+/// Install (or remove) a callback invoked before every filesystem step of a fixed-window
+/// rotation: `i` for the shift `i -> i+1`, `u32::MAX` for the final move/compress. An `Err`
+/// makes that step fail (fault injection); the callback may also snapshot the directory.
+pub fn set_rotate_point(f: Option<RotateFn>) {
+    *ROTATE.write().unwrap() = f;
+}
+
+pub fn rotate_point(step: u32) -> io::Result<()> {
+    let f = ROTATE.read().unwrap().clone();
+    match f {
+        Some(f) => f(step),
+        None => Ok(()),
+    }
+}
+
+/// Install (or remove) a callback invoked at named points inside appender critical sections
+/// (used as a race amplifier: yield / sleep).
+pub fn set_critical_section_point(f: Option<PointFn>) {
+    *POINT.write().unwrap() = f;
+}
+
+pub fn critical_section_point(tag: &str) {
+    let f = POINT.read().unwrap().clone();
+    if let Some(f) = f {
+        f(tag)
+    }
+}
+
+#[cfg(feature = "config_parsing")]
+pub use crate::config::VerifReloader;
